@@ -362,6 +362,10 @@ func (b *Backend) respond(c net.Conn, bh Behaviour, s *Seen) bool {
 	}
 	switch bh.Kind {
 	case "ok", "":
+		if s != nil && s.Method == "HEAD" { // the headers of the answer a GET would get, and no body
+			w([]byte(head(fmt.Sprintf("Content-Length: %d\r\n", len(body)))))
+			return false
+		}
 		if bh.Chunked {
 			w([]byte(head("Transfer-Encoding: chunked\r\n")))
 			chunked(body)
